@@ -6,9 +6,9 @@ from pse import show, subterms
 
 TBA = "mina_core::timeline::TimelineBuilderArguments"
 KEYFRAME = "mina_core::timeline::Keyframe"
-SORTS = ("alloc::slice::<impl [T]>::sort_by", "alloc::slice::<impl [T]>::sort_unstable_by",
+SORTS = ("alloc::slice::<impl [T]>::sort_by", "core::slice::<impl [T]>::sort_unstable_by",
          "alloc::slice::<impl [T]>::sort_by_cached_key", "alloc::slice::<impl [T]>::sort_by_key",
-         "alloc::slice::<impl [T]>::sort_unstable_by_key")
+         "core::slice::<impl [T]>::sort_unstable_by_key")
 
 
 def builders_of(facts, adt_path):
